@@ -13,6 +13,7 @@ from common import rng_for, PYTHON, VERIF, REPO
 PID = 'C02'
 TAGS = ['abegin', 'awaited', 'got', 'lenter', 'levels', 'benter', 'tick', 'caught', 'taskret', 'tfin', 'sexit', 'now']
 RULE = ('random whole-API programs (timers, flags, tracked values, locks, queues, channels, resources, scopes, cancels; plus '
+        'many waiters on one tracked value / resource, several equal-date conditions armed through one connective and watched separately, '
         'a float-time profile with non-dyadic dates) run in-process and in 4 (quick) / 8 (thorough) other configurations '
         '{PYTHONHASHSEED, junk allocations, USIM_WAITQUEUE=SD, python -O}; every configuration must give the same trace as the '
         'in-process run, which must equal the model trace; non-trivial = at least 4 events from at least 2 activities')
@@ -37,6 +38,21 @@ def tracked_family(rng):
     rng.shuffle(roots)
     return ['scenario', ['debug', 1], ['start', 0], ['flags', 1], ['locks', 0], ['tracked', 0], ['resources', ['res', 0, 6, 4]],
             ['roots'] + roots]
+
+
+def connective_family(rng):
+    """several distinct condition objects with one date, first armed through one `&` / `|` chain and watched by
+    one activity each: the order in which the connective subscribes to its operands decides the wake-up order"""
+    n = rng.randint(4, 9)
+    date = rng.choice([5, 10])
+    kind = rng.choice(['all', 'any'])
+    gates = [['defcond', i, ['after', date]] for i in range(n)]
+    roots = [['prog'] + gates + [['await', [kind] + [['ref', i] for i in range(n)]], ['log', 99]]]
+    order = list(range(n))
+    rng.shuffle(order)
+    for i in order:
+        roots.append(['prog', ['sleep', 1], ['await', ['ref', i]], ['log', 100 + i]])
+    return ['scenario', ['debug', 1], ['start', 0], ['flags', 1], ['locks', 0], ['roots'] + roots]
 
 
 CONFIGS = [
@@ -78,7 +94,9 @@ def run(tier, seed, drv, scenarios=None):
         scenarios = []
         for i in range(n):
             rng = rng_for(seed, PID, i)
-            if i % 4 == 0:
+            if i % 8 == 0:
+                scenarios.append(('rat', connective_family(rng)))
+            elif i % 4 == 0:
                 scenarios.append(('rat', tracked_family(rng)))
             elif i % 4 == 3:
                 scenarios.append(('float', c01.float_scenario(rng)))
